@@ -1,6 +1,8 @@
 F = "dec/dec.py"
 G = "data/decfile.lark"
 MUTANTS = [
+    ("accessor-cached-on-tree", [F, F], ["from io import StringIO\n", "def get_aliases(parsed_file: Tree) -> dict[str, str]:\n"],
+     ["from functools import lru_cache\nfrom io import StringIO\n", "@lru_cache(maxsize=None)\ndef get_aliases(parsed_file: Tree) -> dict[str, str]:\n"], "C07.9"),
     ("keyword-define-any-case", "data/decfile.lark", 'define : "Define" LABEL SIGNED_NUMBER', 'define : "Define"i LABEL SIGNED_NUMBER', "C07.1"),
     ("lineshape-family-shrunk", "data/decfile.lark", 'LABEL_LINESHAPE : "LSFLAT" | "LSNONRELBW" | "LSMANYDELTAFUNC"', 'LABEL_LINESHAPE : "LSFLAT" | "LSNONRELBW"', "C07.1"),
     ("chargeconj-swapped", F, "            tree.children[0].value: tree.children[1].value\n            for tree in parsed_file.find_data(\"chargeconj\")", "            tree.children[1].value: tree.children[0].value\n            for tree in parsed_file.find_data(\"chargeconj\")", "C07.4"),
@@ -23,6 +25,8 @@ MUTANTS = [
     ("incfactor-inverted", F, "    if arg == \"yes\":\n        return True\n    if arg == \"no\":\n        return False", "    if arg == \"yes\":\n        return False\n    if arg == \"no\":\n        return True", None),
 ]
 BENIGN = [
+    ("cached-value-helper", [F, F], ["from io import StringIO\n", "def _str_or_float(arg: str) -> str | float:\n"],
+     ["from functools import lru_cache\nfrom io import StringIO\n", "@lru_cache(maxsize=None)\ndef _str_or_float(arg: str) -> str | float:\n"]),
     ("define-loop", F, "        return {\n            tree.children[0].value: float(tree.children[1].value)\n            for tree in parsed_file.find_data(\"define\")\n        }", "        out = {}\n        for tree in parsed_file.find_data(\"define\"):\n            out[tree.children[0].value] = float(tree.children[1].value)\n        return out"),
     ("setlspw-neg-index", F, "            val = int(tree.children[3].value)", "            val = int(tree.children[-1].value)"),
     ("width-mult", F, "            return Particle.from_evtgen_name(pname).width / GeV  # type: ignore[operator]", "            return Particle.from_evtgen_name(pname).width * (1 / GeV)"),
